@@ -111,6 +111,15 @@ fn main() {
             let chk = checks::by_id(&id).unwrap_or_else(|| usage());
             check::scan(chk.as_ref(), DEFAULT_SEED, n, Tier::Quick);
         }
+        "digest" => {
+            // dst digest <Cxx> <runs> <jobs> <seed>
+            let id = args.get(2).cloned().unwrap_or_else(|| usage());
+            let n: u64 = args.get(3).and_then(|s| s.parse().ok()).unwrap_or(200);
+            let jobs: usize = args.get(4).and_then(|s| s.parse().ok()).unwrap_or(1);
+            let seed: u64 = args.get(5).and_then(|s| s.parse().ok()).unwrap_or(DEFAULT_SEED);
+            let chk = checks::by_id(&id).unwrap_or_else(|| usage());
+            check::digest(chk.as_ref(), seed, n, jobs, Tier::Quick);
+        }
         "replay" => {
             if args.len() < 3 {
                 usage();
